@@ -159,3 +159,80 @@ Example C01_command_refusals :
                                 mkStretch 2 [3600; 7200]%Z [0; 0]%float [0; 0]%float] [] = Err EIntegrity
   /\ classify_command 3600 nan 1 example_dataset [] = Err EIntegrity.
 Proof. vm_compute. repeat split; reflexivity. Qed.
+
+(** * `load`, then `classify` (Proofs/LoadClassifyLink.v)
+
+    [stretches_of_load fr fz L] = the stretches the command reads from the
+    tables [L] that the model of `load` (Model/Load.v, C10) wrote: the SELECT
+    DISTINCT data_interval query and, per label, the join of grid_time,
+    rainfall_intensity and water_level.  Load.v carries values as exact
+    rationals, the stretches as binary64: [fr], [fz : Q -> float] (how a stored
+    rainfall intensity / level is read back) are arbitrary, universally
+    quantified, so nothing is claimed about the VALUES; the STRUCTURE is derived
+    in full. *)
+From Spowtd Require Import Model.Load Proofs.LoadSpec Proofs.LoadClassifyLink.
+
+(** Every dataset written by an accepted `load` has the structure assumed by
+    the C01_command_* theorems ([loaded_ok], all of it): positive step, epochs
+    of a stretch exactly one step apart, one rain value and one level per
+    epoch, epochs of all stretches strictly increasing in label order, labels
+    strictly increasing. *)
+Theorem C01_load_then_classify_structure : forall fr fz pop tz rain et wl L,
+  load_model pop tz rain et wl = Ok L ->
+  loaded_ok (ld_step L) (stretches_of_load fr fz L) = true.
+Proof. exact load_then_classify_structure. Qed.
+Print Assumptions C01_load_then_classify_structure.
+
+(** Which instants form the stretch with label k: the starts of grid steps
+    (every grid instant but the closing one) that carry label k (by C10: not
+    strictly inside a gap, no gap between two of them). *)
+Theorem C01_load_stretch_epochs : forall pop tz rain et wl L k e,
+  load_model pop tz rain et wl = Ok L ->
+  (In e (map ep3 (join_rows L k)) <->
+   In (e, Some k) (ld_grid L) /\ In e (removelast (grid_epochs L))).
+Proof. exact stretch_epochs_char. Qed.
+Print Assumptions C01_load_stretch_epochs.
+
+(** Load, then classify: for every input accepted by the model of `load`, all
+    thresholds that are not NaN and all pop orders, the model of `classify` on
+    the loaded tables commits - given at least one data interval and finite
+    levels (the two known findings: `load` guarantees neither). *)
+Theorem C01_load_then_classify_total : forall fr fz pop tz rain et wl L thr_s thr_j scheds,
+  load_model pop tz rain et wl = Ok L ->
+  stretches_of_load fr fz L <> [] -> levels_finite (stretches_of_load fr fz L) = true ->
+  PrimFloat.is_nan thr_s = false -> PrimFloat.is_nan thr_j = false ->
+  exists rows, classify_command (ld_step L) thr_s thr_j (stretches_of_load fr fz L) scheds = Ok rows.
+Proof. exact load_then_classify_total. Qed.
+Print Assumptions C01_load_then_classify_total.
+
+(** Non-vacuity: rainfall every 10 s from -10 to 70 (rows out of order), water
+    level every 5 s from 0 to 50 with the samples 20 and 25 missing (a gap
+    15..30 around the grid instant 20).  Grid 0..50 plus the closing instant 60;
+    stretch 1 = 0, 10; stretch 2 = 30, 40, 50 (60 carries label 2 but no
+    rainfall step: not a sample).  Heavy rain on the step starting at 30 with a
+    rise of the level over it: one storm, matched with one rise.  Values are
+    non-negative integers, read back exactly. *)
+Definition ex_q2f (q : Q) : float :=
+  PrimFloat.of_uint63 (Uint63.of_Z (Qnum q / Zpos (Qden q))).
+Definition ex_load_rain : list row :=
+  [(30, 9#1); (-10, 7#1); (0, 0#1); (10, 0#1); (20, 0#1); (40, 0#1); (50, 0#1); (60, 3#1); (70, 8#1)]%Z.
+Definition ex_load_et : list row :=
+  [(60, 1#1); (0, 1#1); (10, 1#1); (20, 1#1); (30, 1#1); (40, 1#1); (50, 1#1)]%Z.
+Definition ex_load_wl : list row :=
+  [(0, 100#1); (5, 100#1); (10, 99#1); (15, 99#1); (30, 90#1); (35, 95#1); (40, 100#1); (50, 98#1); (45, 99#1)]%Z.
+
+Example C01_load_then_classify_example :
+  match load_model false String.EmptyString ex_load_rain ex_load_et ex_load_wl with
+  | Ok L =>
+      ld_step L = 10%Z /\
+      stretches_of_load ex_q2f ex_q2f L
+      = [ mkStretch 1 [0; 10]%Z [0; 0]%float [100; 99]%float;
+          mkStretch 2 [30; 40; 50]%Z [9; 0; 0]%float [90; 100; 98]%float ] /\
+      levels_finite (stretches_of_load ex_q2f ex_q2f L) = true /\
+      match classify_command (ld_step L) 4 1 (stretches_of_load ex_q2f ex_q2f L) [] with
+      | Ok c => c_storm c = [(30, 40)]%Z /\ c_link c = [(30, TStorm, 30)]%Z
+      | Err _ => False
+      end
+  | Err _ => False
+  end.
+Proof. vm_compute. repeat split; reflexivity. Qed.
